@@ -111,6 +111,9 @@ func c15DupNames(t *tnode) bool {
 	return false
 }
 
+// c15CurFS is the index of the top-level file set of the tree being yielded (generator-internal).
+var c15CurFS int
+
 func c15Trees(tier string, yield0 func(*tnode)) {
 	yield := func(t *tnode) {
 		if !c15DupNames(t) {
@@ -121,10 +124,12 @@ func c15Trees(tier string, yield0 func(*tnode)) {
 	// sibling directories whose names are prefixes of one another followed by a byte below '/': the order in which
 	// a walk meets the files differs from the order of their paths
 	for fs := 0; fs < 5; fs++ {
+		c15CurFS = fs
 		yield(c15Dir("work", c15Files(fs), c15Dir("api", c15Files(4)), c15Dir("api-v2", c15Files(1)), c15Dir("api.old", c15Files(1)), c15Dir("api0", c15Files(1), c15Dir("api", c15Files(1)), c15Dir("api!", c15Files(1)))))
 		yield(c15Dir("work", c15Files(fs), c15Dir("sub", c15Files(1), c15Dir("x", c15Files(1))), c15Dir("sub-x", c15Files(1)), c15Dir("sub.go", c15Files(1))))
 	}
 	for fs := 0; fs < 5; fs++ {
+		c15CurFS = fs
 		yield(c15Dir("work", c15Files(fs)))
 		for i, k := range c15DirKinds {
 			for _, v := range c15ChildVariants(k, true) {
@@ -188,6 +193,9 @@ func c15Gen(tier string, emit func(any)) {
 		// pairs
 		for i, a := range cands {
 			for j, b := range cands {
+				if tier != "thorough" && c15CurFS != 2 && c15CurFS != 4 && i != j && len(t.Kids) > 3 {
+					continue // quick: pairs on the trees with the two richest top-level file sets, and on the small trees
+				}
 				if tier != "thorough" {
 					// quick: duplicates, anything with ".", and prefix-related pairs (overlap)
 					rel := func(s string) string {
@@ -196,6 +204,13 @@ func c15Gen(tier string, emit func(any)) {
 					ra, rb := rel(a), rel(b)
 					overlap := ra == rb || strings.HasPrefix(rb, ra+"/") || strings.HasPrefix(ra, rb+"/")
 					if !(i == j || a == "." || b == "." || overlap) {
+						continue
+					}
+					// two differently odd spellings together add nothing over each of them with a canonical partner
+					odd := func(s string) bool {
+						return strings.Contains(s, "/./") || strings.Contains(s, "/..") && !strings.HasSuffix(s, "/...") || strings.HasSuffix(s, "/.") || strings.Contains(s, "/../")
+					}
+					if i != j && odd(a) && odd(b) {
 						continue
 					}
 				}
